@@ -618,6 +618,11 @@ func (c *Chunk) ToMarkdownWithOptions(opts MarkdownOptions) string {
 		if opts.MaxHeadingLevel > 0 && level > opts.MaxHeadingLevel {
 			level = opts.MaxHeadingLevel
 		}
+		if level > 6 {
+			// Markdown has six heading levels: seven or more '#' are not a heading,
+			// whatever the offset and also when no maximum is configured
+			level = 6
+		}
 		sb.WriteString(strings.Repeat("#", level))
 		sb.WriteString(" ")
 		sb.WriteString(c.Metadata.SectionTitle)
